@@ -1,5 +1,8 @@
 use rssl_text::*;
+#[cfg(not(trark_rssl_verif))]
 use std::collections::HashSet;
+#[cfg(trark_rssl_verif)]
+use rssl_text::verif_collections::HashSet;
 
 use crate::*;
 
